@@ -63,6 +63,8 @@ and `Ref.eval`/`Ref.runProgram` themselves:
                                   `force`: lazy argument object ↔ thunk (`Sim.LzOk`), `Force` (compile at force
                                   time, helper on the captured stack, restore, memo) ↔ `Ref.force`
                                   (`Sim.force_sim`); C16's `LazySemantics` restricted to the fragment.
+* `compile_correct_on_F3`       — the same fragments with `apply` and `map` (callee: closure object or Go builtin;
+                                  re-entrant calls from the builtin's frame: `Sim.aclaim_succ`, `Sim.hclaims`).
 
 `compile_correct_partial` (below) says what is proved of the semantic statement and names
 the unproved remainder (`CompileCorrectOutsideProved`).
@@ -1181,13 +1183,13 @@ theorem tail_call_simulates {k : Nat} {self h : String} {args : List Expr} (hh :
     (hc : (compile isFn c (.call (.sym h) args)).run gs = .ok r) (hfn : FnameOk self c)
     {ps : List String} {rest : Option String} (hkn : KnownOk c gs ps rest) (hps : ∀ p ∈ ps ++ rest.toList, okParam p = true)
     {m₁ : Nat → Nat} {s₁ : St} {rs₁ : Ref.St} {env vid : Nat} {D : List (Option Val)} {m : Nat → Nat} {s : St} {rs : Ref.St}
-    {cenv : Nat} {pre post : List Instr}
-    (hact : InAct m₁ s₁ rs₁ env vid D c.scopes m s rs) (hnargs : (fnOf s₁ vid).nargs = ps.length)
+    {cenv f₀ : Nat} {pre post : List Instr}
+    (hact : InAct m₁ s₁ rs₁ env vid D f₀ c.scopes m s rs) (hnargs : (fnOf s₁ vid).nargs = ps.length)
     (hva : (fnOf s₁ vid).varargs = rest.isSome) (hpa : (fnOf s₁ vid).params = ps ++ rest.toList)
     (hrel : RelF m s rs cenv) (hseg : Seg s pre r.1.1 post) :
-    SimT r.1.1 s₁ env D m s rs cenv (Ref.eval (k + 2) (.call (.sym h) args) cenv rs) := by
+    SimT r.1.1 s₁ env D f₀ m s rs cenv (Ref.eval (k + 2) (.call (.sym h) args) cenv rs) := by
   obtain ⟨_, _, _, hA, hU, _, _, _, _, _, _, hV, _, _, _, _, _, _, _, _, _, hlow⟩ := fclaims (k + 1)
-  exact simT_selfcall hV hA hU (fclaimG (fun j hj => hlow j (Nat.lt_succ_of_lt hj)) hA) hh hhead hfa hself isFn c gs r hc hfn
+  exact simT_selfcall hV hA hU (fclaimH hlow hA) hh hhead hfa hself isFn c gs r hc hfn
     hkn hps hact hnargs hva hpa hrel hseg
 
 /-- **`CompileCorrect` for F2c**: program texts of top-level statements whose loops may `break`/`continue`
@@ -1452,6 +1454,100 @@ example : ∃ fuel' val t, t.length = 1 ∧ obsOfRef (Ref.runProgram 40 demoLazy
     ∧ obsOfVM (VM.runText fuel' demoLazyTail VM.initSt).1 = some (.ok val t) :=
   lazy_instance 40 demoLazyTail (Or.inr demoLazyTail_in) (by decide) _ _ demoLazyTail_ref
 
+/-! ## F3 (`apply`, `map`): re-entrant calls from a Go builtin -/
+
+macro "ref_eval2" d:ident : tactic =>
+  `(tactic| simp [$d:ident, Ref.evalBegin, Ref.eval, Ref.evalArgs, Ref.evalList, Ref.applyFn, Ref.bindParams, Ref.newFrame, Ref.evalCond, Ref.force,
+    Ref.applyValues, Ref.mapArr, Ref.mapList, List.foldl, DataHeap.alloc, DataHeap.get, listToArray, mkList,
+    Ref.define, Ref.setVar, Ref.lookup, Ref.lookupIn, Ref.initSt, Ref.assocSet, Ref.globalNames, coreBuiltins,
+    refVT, List.lookup, prim, isFunction, allInts, intOfLit, Ref.isLazyParam, rebindOk, tyOf, isCmp, compareVals,
+    cmpResult, truthy_bool])
+
+/-- `(defn sq [x] (trace (* x x))) (len (map sq [1 2 3]))`: `map` over an array calls the closure once per element,
+in order, and stores the results in a new array -/
+def demoMapArr : List Expr :=
+  [.defn "sq" ["x"] none [.call (.sym "trace") [.call (.sym "*") [.sym "x", .sym "x"]]],
+   .call (.sym "len") [.call (.sym "map") [.sym "sq", .arr [.int 1, .int 2, .int 3]]]]
+
+/-- `(defn inc [x] (+ x 1)) (first (rest (map inc (list 1 2))))`: `map` over a list -/
+def demoMapList : List Expr :=
+  [.defn "inc" ["x"] none [.call (.sym "+") [.sym "x", .int 1]],
+   .call (.sym "first") [.call (.sym "rest") [.call (.sym "map") [.sym "inc", .call (.sym "list") [.int 1, .int 2]]]]]
+
+/-- `(defn add [a b] (+ a b)) (apply add [1 2])` -/
+def demoApply : List Expr :=
+  [.defn "add" ["a", "b"] none [.call (.sym "+") [.sym "a", .sym "b"]],
+   .call (.sym "apply") [.sym "add", .arr [.int 1, .int 2]]]
+
+/-- `(defn lz [#x] (+ (force #x) (force #x))) (apply lz [(trace 7)])`: `apply` hands over values; a lazy position
+receives an already forced lazy argument object (`NewValueLazyArg`) -/
+def demoApplyLazy : List Expr :=
+  [.defn "lz" ["#x"] none [.call (.sym "+") [.call (.sym "force") [.sym "#x"], .call (.sym "force") [.sym "#x"]]],
+   .call (.sym "apply") [.sym "lz", .arr [.call (.sym "trace") [.int 7]]]]
+
+/-- `(+ (apply + [1 2]) (apply apply [+ [1 2]]))`: Go builtins — also `apply` itself — as callees of `apply` -/
+def demoApplyBuiltin : List Expr :=
+  [.call (.sym "+") [.call (.sym "apply") [.sym "+", .arr [.int 1, .int 2]],
+     .call (.sym "apply") [.sym "apply", .arr [.sym "+", .arr [.int 1, .int 2]]]]]
+
+theorem demoMapArr_in : FtList demoMapArr = true := by ft_mem2 demoMapArr
+theorem demoMapList_in : FtList demoMapList = true := by ft_mem2 demoMapList
+theorem demoApply_in : FtList demoApply = true := by ft_mem2 demoApply
+theorem demoApplyLazy_in : FtList demoApplyLazy = true := by ft_mem2 demoApplyLazy
+theorem demoApplyBuiltin_in : FtList demoApplyBuiltin = true := by ft_mem2 demoApplyBuiltin
+
+set_option maxRecDepth 8000 in
+theorem demoMapArr_ref :
+    refVT (Ref.evalBegin 20 demoMapArr 0 { Ref.initSt with trace := [] }) = some (.int 3#64, 3) := by
+  ref_eval2 demoMapArr
+set_option maxRecDepth 8000 in
+theorem demoMapList_ref :
+    refVT (Ref.evalBegin 20 demoMapList 0 { Ref.initSt with trace := [] }) = some (.int 3#64, 0) := by
+  ref_eval2 demoMapList
+set_option maxRecDepth 8000 in
+theorem demoApply_ref :
+    refVT (Ref.evalBegin 20 demoApply 0 { Ref.initSt with trace := [] }) = some (.int 3#64, 0) := by
+  ref_eval2 demoApply
+set_option maxRecDepth 8000 in
+theorem demoApplyLazy_ref :
+    refVT (Ref.evalBegin 20 demoApplyLazy 0 { Ref.initSt with trace := [] }) = some (.int 14#64, 1) := by
+  ref_eval2 demoApplyLazy
+set_option maxRecDepth 8000 in
+theorem demoApplyBuiltin_ref :
+    refVT (Ref.evalBegin 20 demoApplyBuiltin 0 { Ref.initSt with trace := [] }) = some (.int 6#64, 0) := by
+  ref_eval2 demoApplyBuiltin
+
+/-- **`CompileCorrect` for F3**: the programs of F2 and F2c — lazy parameters and `force` included — that also
+call `apply` and `map` (or pass them, or any other builtin of the fragment, as values: to variables, to user
+functions, to `apply`/`map` themselves). `(apply f coll)`: `f` a closure object or a Go builtin (first-order,
+`force`, `apply`, `map`), `coll` an array or a list; `(map f coll)`: `f` called once per element, first to last,
+on the element as the array/list holds it at that moment, results in a new array resp. list. The Go builtin
+calls back into the machine (`Apply`: the arguments pushed — at a lazy position the index of an already forced
+lazy argument object made for the value —, `CallFunction`, a nested `Run` whose return address names the
+builtin's pseudo-function; an error restores the captured control state): `Sim.aclaim_succ` against
+`Ref.applyValues`, with `FClaimU` at lower fuel for the closure (the relation is stated for the function that
+called the builtin: `St.withCur`), `Sim.marr_succ`/`Sim.mlist_succ` against `Ref.mapArr`/`Ref.mapList`,
+`Sim.hclaims`: every Go builtin of the fragment inside its frame, by induction on the reference fuel. -/
+theorem compile_correct_on_F3 : CompileCorrectOn (fun p => FtList p = true ∨ FyList p = true) :=
+  compile_correct_on_F3lazy
+
+/-- the five programs above, on the machine: the same value, the same trace (of the stated length) -/
+example : ∃ fuel' val t, t.length = 3 ∧ obsOfRef (Ref.runProgram 20 demoMapArr Ref.initSt).1 = some (.ok val t)
+    ∧ obsOfVM (VM.runText fuel' demoMapArr VM.initSt).1 = some (.ok val t) :=
+  lazy_instance 20 demoMapArr (Or.inl demoMapArr_in) (by decide) _ _ demoMapArr_ref
+example : ∃ fuel' val t, t.length = 0 ∧ obsOfRef (Ref.runProgram 20 demoMapList Ref.initSt).1 = some (.ok val t)
+    ∧ obsOfVM (VM.runText fuel' demoMapList VM.initSt).1 = some (.ok val t) :=
+  lazy_instance 20 demoMapList (Or.inl demoMapList_in) (by decide) _ _ demoMapList_ref
+example : ∃ fuel' val t, t.length = 0 ∧ obsOfRef (Ref.runProgram 20 demoApply Ref.initSt).1 = some (.ok val t)
+    ∧ obsOfVM (VM.runText fuel' demoApply VM.initSt).1 = some (.ok val t) :=
+  lazy_instance 20 demoApply (Or.inl demoApply_in) (by decide) _ _ demoApply_ref
+example : ∃ fuel' val t, t.length = 1 ∧ obsOfRef (Ref.runProgram 20 demoApplyLazy Ref.initSt).1 = some (.ok val t)
+    ∧ obsOfVM (VM.runText fuel' demoApplyLazy VM.initSt).1 = some (.ok val t) :=
+  lazy_instance 20 demoApplyLazy (Or.inl demoApplyLazy_in) (by decide) _ _ demoApplyLazy_ref
+example : ∃ fuel' val t, t.length = 0 ∧ obsOfRef (Ref.runProgram 20 demoApplyBuiltin Ref.initSt).1 = some (.ok val t)
+    ∧ obsOfVM (VM.runText fuel' demoApplyBuiltin VM.initSt).1 = some (.ok val t) :=
+  lazy_instance 20 demoApplyBuiltin (Or.inl demoApplyBuiltin_in) (by decide) _ _ demoApplyBuiltin_ref
+
 /-- **C16's `LazySemantics` on the fragment**: the statement of `Props/C16.lean` (`C16.LazySemantics`, in that
 file's vocabulary) restricted to the programs of F3-lazy. -/
 theorem lazy_semantics_on_F3lazy (p : List Expr) (hp : FtList p = true ∨ FyList p = true) (hwf : Ref.wfList {} p = true)
@@ -1493,10 +1589,10 @@ def InProvedFragment (p : List Expr) : Prop :=
   FvList p = true ∨ FcList p = true ∨ FtList p = true ∨ FxTop p = true ∨ FyList p = true
 
 /-- **The part of `CompileCorrect` that is NOT proved**: programs that are in none of Fv, Fc, F2, Fx, F2c
-(F2 and F2c include lazy parameters and `force`) —
+(F2 and F2c include lazy parameters, `force`, `apply` and `map`) —
 i.e. using a `fn`/`defn` inside
 an operand of a call (compiled at run time), a self call in
-a directly compiled non-tail position or in a nested `defn`, `map`/`apply`/`substitute`, computed call heads,
+a directly compiled non-tail position or in a nested `defn`, `substitute`, computed call heads,
 `break`/`continue` inside the body of a nested function, an empty `newScope`, or (together with calls or
 array literals) a binder that re-uses a builtin name. Held by the 3-way `eval` correspondence on
 every run, not by a theorem. -/
@@ -1528,6 +1624,8 @@ def CompileCorrectOutsideProved : Prop := CompileCorrectOn (fun p => ¬ InProved
      operands at lazy positions are not evaluated at the call (ordinary call and self tail call), `force`
      evaluates them once, in the environment of the call site, whenever and wherever it is called
      (`Sim.force_sim`) — `compile_correct_on_F3lazy`, and in C16's vocabulary `lazy_semantics_on_F3lazy`;
+   * F3 — in the same fragments, `apply` and `map` on closure objects and on Go builtins (first-order, `force`,
+     `apply`, `map`), over arrays and lists; builtins as values — `compile_correct_on_F3`;
    * for the effect-free sub-fragment F0c with explicit fuel on both sides — `compile_correct_F0c`;
 2. the full `CompileCorrect` follows from its restriction to the remaining programs
    (`CompileCorrectOutsideProved`, the precise unproved remainder);
@@ -1536,7 +1634,7 @@ def CompileCorrectOutsideProved : Prop := CompileCorrectOn (fun p => ¬ InProved
 MISSING (held by the `eval` correspondence only): `CompileCorrectOutsideProved` — `break`/`continue`
 inside the bodies of nested functions (`fn`, `defn` not at top level), the rest of F2
 (`fn`/`defn` inside operands), self tail calls and `break`/`continue` in nested functions,
-the rest of F3 (`map`/`apply`/`substitute`). -/
+`substitute`. -/
 theorem compile_correct_partial :
     CompileCorrectOn InProvedFragment
     ∧ (CompileCorrectOutsideProved → CompileCorrect)
